@@ -10,6 +10,7 @@ TRUSTED_BASE = [
     '(instantiated from the real C02 lemmas; tied to router.go by C02\'s check and, here, by comparing every per-delivery event trace); a GoChannel topic = '
     '"publication pending until one copy is Acked, fresh copy per attempt, one in flight, immediate redelivery" - PROVED to be what the composition of the registry model '
     'GoChannel/Reg.v with the send-loop model GoChannel/Sub.v does for an always-registered subscription (Pipeline/TopicRefine.v: step-for-step refinement); '
+    'the same topic interface is proved of the full composed GoChannel model GoChannel/Compose.v (Pipeline/ComposeRefine.v) for a subscription that is not cancelled while the Pub/Sub is open',
     'the product of k such topics with one Router step per delivered copy is PROVED to simulate Pipeline/Model.v (Pipeline/ProductProofs.v; safety transfers, liveness only as far as "finitely many Router steps"); the Router step is a macro step there (Publish of the outputs + settle atomic); Reg.v / Sub.v are tied to pubsub.go by the C04/C05/C07 schedule replay',
     'a delivery attempt is one atomic step of the model; the implementation\'s attempts are linearised by the order of handler entry (sound: the outputs of an attempt are '
     'accepted by the next topic after its handler was entered, and the next attempt of a stage starts after the previous copy was settled)',
